@@ -835,6 +835,10 @@ class ImplEngine(object):
         S = sessionmaker(bind=self.engine._data_store)
         objs = []
         with S() as s:
+            # the usage mask as the DATABASE holds it (one integer column), not as the column type decodes it on load
+            import sqlalchemy
+            raw_mask = dict((int(u), m) for u, m in s.execute(sqlalchemy.text(
+                "SELECT uid, cryptographic_usage_mask FROM crypto_objects")).fetchall())
             for o in s.query(pobjects.ManagedObject).order_by(pobjects.ManagedObject.unique_identifier).all():
                 st = getattr(o, "state", None)
                 masks = getattr(o, "cryptographic_usage_masks", None)
@@ -854,7 +858,7 @@ class ImplEngine(object):
                     "appinfo": [[a.application_namespace, a.application_data] for a in o.app_specific_info],
                     "sensitive": bool(o.sensitive), "date": o.initial_date,
                     "state": None if st is None else st.value,
-                    "mask": None if masks is None else sum(m.value for m in masks),
+                    "mask": None if masks is None else raw_mask.get(int(o.unique_identifier), 0) or 0,
                     "alg": None if alg is None else alg.value,
                     "len": getattr(o, "cryptographic_length", None),
                     "format": None if fmt is None else fmt.value,
